@@ -583,7 +583,7 @@ func modelSearchFloat64s(f *Frame, st *State, cc *ssa.CallCommon, args []Val, rt
 	}
 	i := e.freshConst("search", "Int")
 	// For a sorted slice without NaNs: all elements before i are < x, a[i] >= x.
-	e.assume("true", fmt.Sprintf("(and (<= 0 %s) (<= %s (s.len %s)))", i, i, a))
+	e.assume(st.cond, fmt.Sprintf("(and (<= 0 %s) (<= %s (s.len %s)))", i, i, a))
 	sorted := fmt.Sprintf("(forall ((p Int) (q Int)) (=> (and (<= 0 p) (< p q) (< q (s.len %s))) (fp.leq %s %s)))", a, at("p"), at("q"))
 	e.assume("true", fmt.Sprintf("(=> %s (and (forall ((q Int)) (! (=> (and (<= 0 q) (< q %s)) (not (fp.geq %s %s))) :pattern (%s))) (=> (< %s (s.len %s)) (fp.geq %s %s))))",
 		sorted, i, at("q"), x, at("q"), i, a, at(i), x))
@@ -605,7 +605,7 @@ func modelSlicesClone(f *Frame, st *State, cc *ssa.CallCommon, args []Val, rt ty
 	e.assume("true", fmt.Sprintf("(forall ((i Int)) (! (=> (and (<= 0 i) (< i (s.len %s))) (= (select %s i) (select (select %s (s.arr %s)) (+ (s.off %s) i)))) :pattern ((select %s i))))", s, na, h, s, s, na))
 	st.heapA[srt] = e.define("ha", e.heapASort(srt), fmt.Sprintf("(store %s %s %s)", h, arr, na))
 	cp := e.freshConst("cap", "Int")
-	e.assume("true", fmt.Sprintf("(and (>= %s (s.len %s)) (<= %s 4611686018427387904))", cp, s, cp))
+	e.assume(st.cond, fmt.Sprintf("(and (>= %s (s.len %s)) (<= %s 4611686018427387904))", cp, s, cp))
 	return Val{T: rt, S: e.define("clone", "Slice", sIte(fmt.Sprintf("(= (s.arr %s) 0)", s), "(mk-slice 0 0 0 0)", fmt.Sprintf("(mk-slice %s 0 (s.len %s) %s)", arr, s, cp)))}
 }
 
@@ -829,7 +829,7 @@ func modelSlicesGrow(f *Frame, st *State, cc *ssa.CallCommon, args []Val, rt typ
 	na := e.freshConst("arr", "(Array Int "+srt+")")
 	e.assume("true", fmt.Sprintf("(forall ((q.i Int)) (! (=> (and (<= 0 q.i) (< q.i (s.len %s))) (= (select %s q.i) (select (select %s (s.arr %s)) (+ (s.off %s) q.i)))) :pattern ((select %s q.i))))", s, na, h, s, s, na))
 	cp := e.freshConst("cap", "Int")
-	e.assume("true", fmt.Sprintf("(and (>= %s (+ (s.len %s) %s)) (<= %s 4611686018427387904))", cp, s, n, cp))
+	e.assume(st.cond, fmt.Sprintf("(and (>= %s (+ (s.len %s) %s)) (<= %s 4611686018427387904))", cp, s, n, cp))
 	st.heapA[srt] = e.define("ha", e.heapASort(srt), sIte(fits, h, fmt.Sprintf("(store %s %s %s)", h, arr, na)))
 	return Val{T: rt, S: e.define("grown", "Slice", sIte(fits, s, fmt.Sprintf("(mk-slice %s 0 (s.len %s) %s)", arr, s, cp)))}
 }
